@@ -142,7 +142,7 @@ func raceChild(tier core.Tier) {
 			r.body(func(f func()) { wg.Add(1); go func() { defer wg.Done(); f() }() })
 			wg.Wait()
 			if _, v := r.judge(); v != nil {
-				fmt.Fprintf(os.Stderr, "free-running oracle failure in %s: %s\n", b.name(), v.Summary)
+				fmt.Fprintf(os.Stderr, "FREE-RUN-VIOLATION class=%s [%s] %s\n", v.Class, b.name(), v.Summary)
 			}
 		}
 	}
